@@ -1,5 +1,6 @@
 import OrsoVerif.Model.PyVal
 import OrsoVerif.Model.Validate
+import OrsoVerif.Model.Family
 /-! Driver glue for C05. -/
 namespace Drv.C05
 open Validate
@@ -28,6 +29,36 @@ def decodeRecord (kvs : List (String × PyVal)) : Option Record :=
 def decodeAppend : PyVal → Option (Record × Bool)
   | .dict kvs => (decodeRecord kvs).map fun r => (r, true)
   | .list [.dict kvs, .bool z] => (decodeRecord kvs).map fun r => (r, z)
+  | _ => none
+
+def decodeKind : PyVal → Option Kind
+  | .list [.bool d, .bool e, .bool m, .bool p] => some ⟨d, e, m, p⟩
+  | _ => none
+
+/-- a record object to append: `[dict, sizable, [isinstance dict, exact dict, MutableMapping, Mapping]]` (a plain dict when the facts are left out) -/
+def decodeAppendK : PyVal → Option (Kind × Record × Bool)
+  | .list [.dict kvs, .bool z, k] => do
+    let r ← decodeRecord kvs
+    let k ← decodeKind k
+    pure (k, r, z)
+  | v => (decodeAppend v).map fun p => (Kind.dict, p.1, p.2)
+
+def decodeNats : List PyVal → Option (List Nat)
+  | [] => some []
+  | .int i :: rest => if i < 0 then none else (decodeNats rest).map (i.toNat :: ·)
+  | _ => none
+
+def decodeFOp : PyVal → Option Family.FOp
+  | .list [.str "append", .int i, .dict kvs, .bool z, k] => do
+    let r ← decodeRecord kvs
+    let k ← decodeKind k
+    pure (.append i.toNat k r z)
+  | .list [.str "slice", .int i, .int o, .none] => some (.derive i.toNat (.slice o none))
+  | .list [.str "slice", .int i, .int o, .int l] => some (.derive i.toNat (.slice o (some l)))
+  | .list [.str "head", .int i, .int n] => some (.derive i.toNat (.head n))
+  | .list [.str "tail", .int i, .int n] => some (.derive i.toNat (.tail n))
+  | .list [.str "pick", .int i, .str m, .list idxs] => (decodeNats idxs).map fun l => .derive i.toNat (.pick m l)
+  | .list [.str "concat", .int i, .int j] => some (.derive i.toNat (.concat j.toNat))
   | _ => none
 
 def decodeRows (rows : List PyVal) : Option (List (List Value)) :=
@@ -79,12 +110,24 @@ def handle (op : String) (args : List PyVal) : Option (List PyVal) :=
     let s ← cols.mapM decodeCol
     let r ← decodeRecord r
     pure [encodeOutcome (validate s r)]
+  | "validatek", [.list cols, .dict r, k] => do
+    let s ← cols.mapM decodeCol
+    let r ← decodeRecord r
+    let k ← decodeKind k
+    pure [encodeOutcome (validateKE k s r)]
   | "appends", [.list cols, .list rows, .list recs] => do
     let s ← cols.mapM decodeCol
     let rows ← decodeRows rows
-    let recs ← recs.mapM decodeAppend
-    pure [encodeRows (appends s rows recs), .list (recs.map fun p => encodeOutcome (validate s p.1)),
-          .list ((appendResults s rows recs).map encodeResult)]
+    let recs ← recs.mapM decodeAppendK
+    pure [encodeRows (appendsK s rows recs), .list (recs.map fun p => encodeOutcome (validateK p.1 s p.2.1)),
+          .list ((appendResultsK s rows recs).map encodeResult)]
+  | "family", [.list cols, .list rows, .list ops] => do
+    let s ← cols.mapM decodeCol
+    let rows ← decodeRows rows
+    let ops ← ops.mapM decodeFOp
+    let st0 : Family.St := ⟨[rows], [0]⟩
+    pure [.list ((Family.runH s st0 ops).view.map encodeRows), .list ((Family.resultsH s st0 ops).map encodeResult),
+          .list ((Family.runR s [rows] ops).map encodeRows)]
   | "session", [.list cols, .list ops] => do
     let s ← cols.mapM decodeCol
     let ops ← ops.mapM decodeOp
